@@ -477,3 +477,110 @@ Lemma admin_only_types_check :
     "DropMeasurementStatement"; "DropShardStatement"; "KillQueryStatement"; "ShowShardsStatement"; "ShowStatsStatement";
     "ShowDiagnosticsStatement"; "CreateMeasurementStatement"; "SetConfigStatement"; "ShowConfigsStatement"] = true.
 Proof. vm_compute. reflexivity. Qed.
+
+(* ------------------------------------------------------------------------------------------------------------ *)
+(* GRANT / REVOKE at the level of `serve` *)
+Definition stmt_mentions (db d : string) (s : stmt) : bool :=
+  existsb (fun rp => match rp with RAdmin => false | RDb d0 _ => String.eqb (target_db d0 db) d end) s.
+(* does handling the request consult the privilege on database d ? *)
+Definition mentionsb (k : rkind) (rq : request) (d : string) : bool :=
+  match k with
+  | KQuery q => existsb (stmt_mentions (rq_db rq) d) q
+  | KWrite => String.eqb (rq_db rq) d
+  | _ => false
+  end.
+
+Definition upd_user (n d : string) (p : priv) (u : user) : user :=
+  if (u_name u =? n)%string then set_priv_user u d p else u.
+Definition map_auth (f : user -> user) (r : auth_result) : auth_result :=
+  match r with Pass (Some u) => Pass (Some (f u)) | x => x end.
+
+Lemma authorize_database_other_db : forall u d p q d', d' <> d ->
+  authorize_database (set_priv_user u d p) q d' = authorize_database u q d'.
+Proof.
+  intros. unfold authorize_database, set_priv_user. cbn [u_admin u_privs]. rewrite lookup_set_key_other; [reflexivity|assumption].
+Qed.
+
+Lemma authorize_stmt_unmentioned : forall u d p db s, stmt_mentions db d s = false ->
+  authorize_stmt (set_priv_user u d p) db s = authorize_stmt u db s.
+Proof.
+  intros u d p db s. unfold authorize_stmt, stmt_mentions. induction s as [|rp s IH]; intro H; [reflexivity|].
+  cbn [existsb forallb] in *. apply orb_false_iff in H. destruct H as [H1 H2]. rewrite (IH H2).
+  destruct rp as [|d0 q]; [reflexivity|]. apply str_eqb_false in H1.
+  rewrite authorize_database_other_db; [reflexivity|exact H1].
+Qed.
+
+Lemma inner_unmentioned : forall cfg k rq u d p, mentionsb k rq d = false ->
+  inner cfg k rq (Some (set_priv_user u d p)) = inner cfg k rq (Some u).
+Proof.
+  intros cfg k rq u d p H. destruct k as [|q| | |]; cbn [inner mentionsb] in *; try reflexivity.
+  - destruct (negb (auth_enabled cfg)); [reflexivity|].
+    assert (authorize_query (set_priv_user u d p) (rq_db rq) q = authorize_query u (rq_db rq) q) as ->; [|reflexivity].
+    unfold authorize_query. cbn [set_priv_user u_admin]. f_equal.
+    induction q as [|s q IH]; [reflexivity|]. cbn [existsb forallb] in *. apply orb_false_iff in H. destruct H as [H1 H2].
+    rewrite (IH H2), (authorize_stmt_unmentioned _ _ _ _ _ H1). reflexivity.
+  - destruct (negb (auth_enabled cfg)); [reflexivity|]. apply str_eqb_false in H.
+    rewrite authorize_database_other_db; [reflexivity|exact H].
+Qed.
+
+Lemma set_privilege_admin_exists' : forall us n d p, admin_exists (set_privilege us n d p) = admin_exists us.
+Proof. exact set_privilege_admin_exists. Qed.
+
+Lemma upd_user_name : forall n d p u, u_name (upd_user n d p u) = u_name u.
+Proof. intros. unfold upd_user. destruct (u_name u =? n)%string; reflexivity. Qed.
+Lemma upd_user_pass : forall n d p u, u_pass (upd_user n d p u) = u_pass u.
+Proof. intros. unfold upd_user. destruct (u_name u =? n)%string; reflexivity. Qed.
+
+Lemma authenticate_set_privilege : forall cfg us n d p c,
+  authenticate cfg (set_privilege us n d p) c = map_auth (upd_user n d p) (authenticate cfg us c).
+Proof.
+  intros cfg us n d p c. unfold authenticate. rewrite set_privilege_admin_exists.
+  destruct (negb (auth_enabled cfg)); [reflexivity|]. destruct (negb (admin_exists us)); [reflexivity|].
+  destruct (parse_credentials c) as [cr|]; [|reflexivity].
+  unfold authenticate_creds. destruct (cr_method cr); [| |reflexivity].
+  - destruct (cr_user cr =? "")%string; [reflexivity|]. destruct (mem (cr_user cr) (locked cfg)); [reflexivity|].
+    rewrite find_user_set_privilege. destruct (find_user us (cr_user cr)) as [u|]; [|reflexivity].
+    fold (upd_user n d p u). rewrite upd_user_pass. destruct (u_pass u =? cr_pass cr)%string; reflexivity.
+  - destruct (negb (shared_secret_set cfg)); [reflexivity|]. destruct (cr_token cr) as [t|]; [|reflexivity].
+    destruct (negb (tk_valid t)); [reflexivity|]. destruct (negb (tk_has_exp t)); [reflexivity|].
+    destruct (tk_user t) as [m|]; [|reflexivity]. destruct (m =? "")%string; [reflexivity|].
+    rewrite find_user_set_privilege. destruct (find_user us m) as [u|]; reflexivity.
+Qed.
+
+(* setting user n's privilege on database d leaves the answer of `serve` unchanged for every request that is not made
+   by n, and for every request whose handling does not consult the privilege on d *)
+Lemma serve_set_privilege_exact : forall sh cfg us r k rq n d p,
+  (forall u, authenticate cfg us (rq_creds rq) = Pass (Some u) -> u_name u <> n) \/ mentionsb k rq d = false ->
+  serve sh cfg (set_privilege us n d p) r k rq = serve sh cfg us r k rq.
+Proof.
+  intros sh cfg us r k rq n d p H. unfold serve. destruct (always_rejects r); [reflexivity|].
+  destruct (authenticated sh r); [|reflexivity]. rewrite authenticate_set_privilege.
+  destruct (authenticate cfg us (rq_creds rq)) as [st|[u|]|st] eqn:E; cbn [map_auth]; try reflexivity.
+  unfold upd_user. destruct (u_name u =? n)%string eqn:En; [|reflexivity].
+  destruct H as [H|H].
+  - exfalso. apply (H u eq_refl). apply String.eqb_eq. exact En.
+  - apply inner_unmentioned. exact H.
+Qed.
+
+Lemma serve_grant_revoke_exact_lemma : forall sh cfg us r k rq n d p,
+  (forall u, authenticate cfg us (rq_creds rq) = Pass (Some u) -> u_name u <> n) \/ mentionsb k rq d = false ->
+  serve sh cfg (grant us n d p) r k rq = serve sh cfg us r k rq /\
+  serve sh cfg (revoke us n d p) r k rq = serve sh cfg us r k rq.
+Proof. intros. unfold grant, revoke. split; apply serve_set_privilege_exact; assumption. Qed.
+
+(* ... and for the user and database concerned the answer becomes what the new privilege says: after GRANT p a read
+   (write) request of a non-administrator n on d is served iff p covers it *)
+Lemma serve_after_grant : forall sh cfg us r n d p u c want,
+  auth_enabled cfg = true -> admin_exists us = true -> authenticated sh r = true -> always_rejects r = false ->
+  authenticate cfg us c = Pass (Some u) -> u_name u = n -> u_admin u = false -> want <> NoPriv ->
+  fst (serve sh cfg (grant us n d p) r (KQuery [[RDb "" want]]) (mk_request c d)) =
+    if priv_eqb p want || priv_eqb p AllPriv then 200 else 403.
+Proof.
+  intros sh cfg us r n d p u c want Ha Hadm Hauth Hrej E Hn Hna Hw. unfold serve, grant. rewrite Hrej, Hauth.
+  rewrite authenticate_set_privilege. cbn [rq_creds]. rewrite E. cbn [map_auth]. unfold upd_user. rewrite Hn, String.eqb_refl.
+  cbn [inner]. rewrite Ha. cbn [negb]. unfold authorize_query, authorize_stmt. cbn [set_priv_user u_admin forallb rq_db].
+  rewrite Hna. cbn [orb]. unfold target_db. cbn [String.eqb]. unfold authorize_database. cbn [set_priv_user u_admin u_privs].
+  rewrite Hna, lookup_set_key_same. cbn [orb].
+  assert (priv_eqb want NoPriv = false) as ->. { destruct want; try reflexivity. congruence. }
+  cbn [orb]. rewrite !andb_true_r. destruct (priv_eqb p want || priv_eqb p AllPriv); reflexivity.
+Qed.
